@@ -154,7 +154,7 @@ func randFont(r *rng, integerCoords bool) *type1.Font {
 	// glyphs
 	f.Glyphs[".notdef"] = &type1.Glyph{WidthX: float64(r.rangeInt(0, 1000))}
 	for _, n := range glyphNamePool {
-		if r.chance(1, 3) {
+		if r.chance(1, 3) || (n == "germandbls" && r.chance(1, 3)) {
 			f.Glyphs[n] = &type1.Glyph{Cmds: wellFormedPath(r, integerCoords), HStem: randStems(r), VStem: randStems(r), WidthX: float64(r.rangeInt(0, 2000))}
 		}
 	}
@@ -164,7 +164,26 @@ func randFont(r *rng, integerCoords bool) *type1.Font {
 		}
 	}
 	// encoding
-	switch r.intn(5) {
+	switch r.intn(6) {
+	case 5:
+		// StandardEncoding with exactly one existing glyph left unassigned, preferably at the ends of the
+		// standard code range (space = 32, germandbls = 251)
+		f.Encoding = make([]string, 256)
+		var present []int
+		for i, n := range psenc.StandardEncoding {
+			f.Encoding[i] = ".notdef"
+			if _, ok := f.Glyphs[n]; ok && n != ".notdef" {
+				f.Encoding[i] = n
+				present = append(present, i)
+			}
+		}
+		if len(present) > 0 {
+			victim := pick(r, present)
+			if r.chance(1, 2) {
+				victim = pick(r, []int{present[0], present[len(present)-1]})
+			}
+			f.Encoding[victim] = ".notdef"
+		}
 	case 0:
 		f.Encoding = nil
 	case 1:
